@@ -233,7 +233,11 @@ def loadEach (single : Bool) (name : Id) : State → List Id → State × Except
 (the orders agree whenever no store fails to load, which is what the generator produces). -/
 def loadBeaconsFromDisk (s : State) (single : Bool) (name : Id) : State × Except RErr Unit :=
   if single && name == "" then (s, .ok ())
-  else loadEach single name s (bootStores s)
+  else
+    let stores := bootStores s
+    -- key.NewFileStores creates the folder of the default store when there is no folder at all
+    let s := if s.disk.isEmpty then { s with disk := aset defaultBeaconID .nokey s.disk } else s
+    loadEach single name s stores
 
 /-- control `Shutdown` with a non-empty beacon id in the metadata (an empty one stops the whole daemon) -/
 def shutdown (s : State) (md : Option Req) : State × Except RErr Unit :=
